@@ -495,6 +495,18 @@ func (o *orch) search(scale float64) int {
 			}
 			w := genWorkload(o.prop, o.seed, n, o.maxOps)
 			switch {
+			case j.code == 67 && o.prop != "C07":
+				// a single client that does not finish within the yield budget is a
+				// matter of cost (C09), which this technique does not decide
+				o.troublef("run %d of job %s exceeded the yield budget (single client: cost, not decided here)", n, j.name)
+			case j.code == 67 && func() bool {
+				// concurrent clients: is it slow even when run one after the other?
+				sw := w.clone()
+				sw.Sched = simrt.Schedule{Kind: simrt.StratExplicit, Seed: w.Sched.Seed}
+				cl, _, _ := o.replayOnce(sw, build)
+				return cl == "no-progress" || cl == "timeout"
+			}():
+				o.troublef("run %d of job %s exceeded the yield budget also when its clients run one after the other (cost, not decided here)", n, j.name)
 			case j.code == 67:
 				finds = append(finds, found{viol: &Violation{Prop: o.prop, Class: "no-progress", Sig: "no-progress", Detail: "a run exceeded the yield budget"}, wl: w, build: build, jobFrom: j.from, jobKind: j.kind})
 			case j.code == 68:
